@@ -188,4 +188,20 @@ func WorkerPool.handleShutdown
   requires w != nil
   modifies everything
   ghost before select: assert false
+-- Shutdown: the running flag is cleared and the workers are signalled inside the pool mutex; the dispatcher is woken
+-- (Queue.SignalShutdown) only after the mutex has been released - SignalShutdown passes through the queue's lock, under
+-- which the dispatcher evaluates its wait condition IsRunning, which takes the pool mutex
+func WorkerPool.stopRunning
+  requires w != nil && unlocked(w.mutex)
+  modifies everything
+  ensures unlocked(w.mutex)
+  ensures r0 ==> !w.isRunning
+func WorkerPool.Shutdown
+  requires w != nil && w.Queue != nil && unlocked(w.mutex)
+  modifies everything
+  ghost local stopped Bool
+  ghost at entry: stopped = false
+  ghost after call WorkerPool.stopRunning: stopped = true
+  ghost before call Stack.SignalShutdown: assert stopped && unlocked(w.mutex)
+  ensures unlocked(w.mutex) && r0 == w
 @*/
